@@ -27,7 +27,6 @@ use liwe::model::Key;
 use liwe::model::{self, InlineRange};
 
 use liwe::parser::Parser;
-use relative_path::RelativePath;
 
 use super::LspClient;
 use super::ServerConfig;
@@ -56,13 +55,6 @@ pub struct BasePath {
 impl BasePath {
     fn key_to_url(&self, key: &Key) -> Url {
         Url::from_file_path(self.dir.join(key.to_path())).expect("to work")
-    }
-
-    fn relative_to_full_path(&self, url: &str) -> Url {
-        Url::parse(&self.base_path)
-            .unwrap()
-            .join(&format!("{}.md", model::strip_md(url)))
-            .expect("to work")
     }
 
     fn name_to_url(&self, key: &str) -> Url {
@@ -262,9 +254,10 @@ impl Server {
             ))
         })
         .map(|url| {
-            let relative_url = RelativePath::new(&relative_to).join(url).to_string();
+            // the note the link names from the linking note's directory, addressed the way every
+            // other response addresses a note (a file path, not text joined onto a URL)
             GotoDefinitionResponse::Scalar(Location::new(
-                self.base_path.relative_to_full_path(&relative_url),
+                Key::from_rel_link_url(&url, &relative_to).to_full_url(&self.base_path),
                 Range::default(),
             ))
         })
